@@ -357,7 +357,7 @@ private:
     /** Invokes the bison generated parser to parse the given string. */
     int parse(const xmlChar*, xta_part_t syntax);
     /** Parse optional declaration. */
-    bool declaration();
+    bool declaration(xta_part_t part = S_DECLARATION);
     /** Parse optional label. */
     bool label(bool required = false, const std::string& kind = "");
     int invariant();
@@ -563,12 +563,12 @@ int XMLReader::parse(const xmlChar* text, xta_part_t syntax)
     return parse_XTA((const char*)text, parser, newxta, syntax, path.str());
 }
 
-bool XMLReader::declaration()
+bool XMLReader::declaration(xta_part_t part)
 {
     if (begin(tag_t::DECLARATION)) {
         read();
         if (getNodeType() == XML_READER_TYPE_TEXT) {
-            parse(xmlTextReaderConstValue(reader.get()), S_DECLARATION);
+            parse(xmlTextReaderConstValue(reader.get()), part);
         }
         return true;
     }
@@ -1112,7 +1112,7 @@ bool XMLReader::templ()
 
             /* Parse declarations, locations, branchpoints,
              * the init tag and the transitions of the template. */
-            declaration();
+            declaration(S_LOCAL_DECL);
             while (location())
                 ;
             while (branchpoint())
@@ -1156,7 +1156,7 @@ bool XMLReader::lscTempl()
 
             /* Parse declarations, locations, instances, prechart
              * messages, conditions and updates */
-            declaration();
+            declaration(S_LOCAL_DECL);
             while (yloccoord())
                 ;
             while (instance())
